@@ -1,5 +1,7 @@
 package main
 
+import "sort"
+
 // Property ties a property id to the rules (structural clauses) that decide it.
 type Property struct {
 	ID         string
@@ -41,5 +43,17 @@ func properties() map[string]*Property {
 		p.Assumes = append(append([]string{}, p.Assumes...), commonAssumes...)
 		m[p.ID] = p
 	}
+	// pseudo property: every registered rule (used by tools/seedtest.sh to see which rules fire on a changed tree)
+	all := &Property{ID: "ALL", Technique: "all rules", Decides: "-", NotDecided: "-"}
+	var ids []string
+	for id := range ruleRegistry {
+		ids = append(ids, id)
+	}
+	sort.Strings(ids)
+	for _, id := range ids {
+		all.RuleIDs = append(all.RuleIDs, id)
+		all.Rules = append(all.Rules, ruleRegistry[id])
+	}
+	m["ALL"] = all
 	return m
 }
